@@ -120,8 +120,8 @@ def run(ctx):
     ctx.coq_props()
     rng = ctx.rng
     quick = ctx.tier == "quick"
-    n_map = 1000 if quick else 8000
-    n_orc = 300 if quick else 3000
+    n_map = 700 if quick else 8000
+    n_orc = 220 if quick else 3000
     cases = [  # corpus first
         {"kind": "map", "m": "JW", "n": 0, "w": [[0, 1], [1, 0]]},
         {"kind": "map", "m": "PT", "n": 6, "w": [[0, 1], [1, 0]]},
@@ -197,7 +197,7 @@ def run(ctx):
     hdr = "From PLV Require Import Disc.FermiModel.\nRequire Import QArith."
     mcases = [(c, o) for c, o in zip(cases, obs) if c["kind"] == "map"]
     terms = [f"({g_case(c)}, {g_out(o['out'])})" for c, o in mcases]
-    bad = ctx.coq_eval_cases("cases", hdr, terms, "check_case", chunk=250)
+    bad = ctx.coq_eval_cases("cases", hdr, terms, "check_case", chunk=120)
     for i in bad:
         c, o = mcases[i]
         ctx.violation("corr:" + json.dumps(c, sort_keys=True), {"case": c, "implementation": o},
